@@ -144,4 +144,14 @@ func runShard(r *ev.Run, i int, phases []phase, deadline time.Time) {
 		s := &shard{focus: i / 2, sendLogs: i%2 == 1, depth: p.depth, capOut: p.caps}
 		s.run(r, w, deadline)
 	}
+	// queue edits (shards of the sleep kind): relay jobs and the operator's "task clear"
+	// among issue, hand-out and callbacks of one agent
+	if i/2 == kSleep {
+		d := 8
+		if r.Thorough() {
+			d = 12
+		}
+		s := &shard{edits: true, focus: kSleep, sendLogs: i%2 == 1, depth: d, capOut: [2]int{2, 0}}
+		s.run(r, w, deadline)
+	}
 }
